@@ -186,5 +186,45 @@ pub fn two_step_histories(ctx: &mut Ctx, prop: &'static str, fam: Family) -> Sub
         },
     );
     ctx.require(&r, &["single_call_from_initial_state", "second_call_after_another_input"]);
+
+    // three-step histories over a smaller alphabet
+    let small: Vec<i32> = {
+        let mut v = vec![0, 1, -1, w.cal.min_day, w.cal.max_day];
+        for (y, m, d) in [(2020, 6, 15), (996, 6, 15), (3044, 6, 15), (2000, 2, 29), (1970, 12, 31), (2084, 6, 15), (1956, 6, 15), (2021, 1, 3), (1900, 3, 1), (2019, 12, 30), (6116, 6, 15), (2420, 6, 15), (1620, 6, 15)] {
+            v.push(w.cal.day_number(y, m, d));
+        }
+        for p in [64, 1024, 65_536, 1 << 19] { v.push(p); v.push(-p); }
+        v.sort();
+        v.dedup();
+        v
+    };
+    let m = small.len() as u64;
+    let sm = &small;
+    let r3 = ctx.sweep_each(
+        "three_step_histories_on_fresh_threads",
+        "every call sequence [f(a), f(b), f(c)] over a 26-date alphabet, each on a fresh thread; the last observation is compared with the reference",
+        m * m * m,
+        64,
+        |idx, acc| {
+            let (a1, b1, c1) = (sm[(idx / (m * m)) as usize], sm[((idx / m) % m) as usize], sm[(idx % m) as usize]);
+            acc.states += 1;
+            acc.t(1);
+            acc.traces += 1;
+            acc.nontrivial += 1;
+            let res = std::thread::scope(|s| s.spawn(|| guard(|| { let _ = observe(fam, a1); let _ = observe(fam, b1); observe(fam, c1) })).join());
+            let got = match res { Ok(Ok(v)) => v, _ => { acc.fail(&format!("{prop}:history:panic"), idx, || (format!("fresh thread: {fam:?} of days {a1}, {b1}, {c1}"), "no panic".into(), "panic".into(), String::new())); return; } };
+            let want = expected(w, fam, c1);
+            acc.cls("third_call");
+            for (i, (g, e)) in got.iter().zip(want.iter()).enumerate() {
+                if let Some(e) = e {
+                    if g != e {
+                        acc.fail(&format!("{prop}:history:result-depends-on-earlier-calls"), idx, || (format!("fresh thread: {fam:?} observations of days {a1}, {b1}, then {c1} (observation #{i})"), format!("{e:?}"), format!("{g:?}"), String::new()));
+                        break;
+                    }
+                }
+            }
+        },
+    );
+    ctx.require(&r3, &["third_call"]);
     r
 }
